@@ -28,6 +28,14 @@ import (
 
 const Root = "/verif"
 
+// outRoot: where replays and evidence are written; /verif, except for triage runs against another tree (tools/runalt.sh)
+func outRoot() string {
+	if d := os.Getenv("VERIF_OUT_DIR"); d != "" {
+		return d
+	}
+	return Root
+}
+
 // Check describes one property check.
 type Check struct {
 	ID          string
@@ -633,7 +641,7 @@ func parentMain(c *Check, tier string, only string) int {
 			known[f.Key] = f
 		}
 	}
-	os.MkdirAll(filepath.Join(Root, "replays"), 0o755)
+	os.MkdirAll(filepath.Join(outRoot(), "replays"), 0o755)
 	seenKey := map[string]bool{}
 	nviol := 0
 	nknown := 0
@@ -661,7 +669,7 @@ func parentMain(c *Check, tier string, only string) int {
 		nviol++
 		b, _ := json.MarshalIndent(v, "", " ")
 		h := sha256.Sum256(b)
-		p := filepath.Join(Root, "replays", c.ID+"-"+hex.EncodeToString(h[:6])+".json")
+		p := filepath.Join(outRoot(), "replays", c.ID+"-"+hex.EncodeToString(h[:6])+".json")
 		os.WriteFile(p, b, 0o644)
 		fmt.Printf("violation key=%s: %s\n", v.Key, trunc(v.Msg, 600))
 		vlines = append(vlines, fmt.Sprintf("VIOLATION property=%s replay=%s", c.ID, p))
@@ -704,9 +712,9 @@ func parentMain(c *Check, tier string, only string) int {
 	ev := Evidence{PropertyID: c.ID, Tier: tier, Seed: seed(), Level: c.Level, Coverage: cov,
 		Assumptions: c.Assumptions, WallS: wall, Violations: nviol}
 	eb, _ := json.MarshalIndent(&ev, "", " ")
-	os.MkdirAll(filepath.Join(Root, "evidence"), 0o755)
+	os.MkdirAll(filepath.Join(outRoot(), "evidence"), 0o755)
 	if only == "" {
-		os.WriteFile(filepath.Join(Root, "evidence", c.ID+".json"), eb, 0o644)
+		os.WriteFile(filepath.Join(outRoot(), "evidence", c.ID+".json"), eb, 0o644)
 	}
 	fmt.Printf("%s tier=%s evaluations=%d distinct_nontrivial=%d exhaustive=%v shards=%d/%d known=%d violations=%d wall=%.1fs\n",
 		c.ID, tier, total.Evals, len(outcomes), complete, done, len(shards), nknown, nviol, wall)
